@@ -354,6 +354,20 @@ func (s *Store) Bin(op Op, a, b *Term) *Term {
 		if b.op == OpConst {
 			return s.Bin(OpAdd, a, s.Const(w, -b.val))
 		}
+		// (x + c1) - (x + c2), (x + c1) - x, x - (x + c2)
+		{
+			ax, ac := a, uint64(0)
+			if a.op == OpAdd && a.args[1].op == OpConst {
+				ax, ac = a.args[0], a.args[1].val
+			}
+			bx, bc := b, uint64(0)
+			if b.op == OpAdd && b.args[1].op == OpConst {
+				bx, bc = b.args[0], b.args[1].val
+			}
+			if ax == bx {
+				return s.Const(w, ac-bc)
+			}
+		}
 		if a.op == OpConst && a.val == 0 {
 			return s.Un(OpNeg, b)
 		}
